@@ -208,7 +208,10 @@ class TarWriter:
         # names
         prefix = b""
         hname = name
-        if d == "pax":
+        sparse10 = any(k == b"GNU.sparse.major" for k, _ in pax)
+        if d == "pax" and sparse10:
+            hname = name[:100]
+        elif d == "pax":
             if len(name) > 100 or any(c >= 0x80 for c in name) and self.r and self.r.random() < 0.3:
                 pax.append((b"path", name))
                 hname = name[:100]
